@@ -436,3 +436,33 @@ class SpeciesSelection(Contract):
                     elif g == 0:
                         cells.append(L.eq(conc[t, i], M[t, j]))
         yield "concentration_and_spectrum_of_a_species_are_selected_by_label", L.and_(*cells)
+
+
+# ----------------------------------------------------------------------------- full models: clps under (global label, label)
+from contracts.c03_results import ResultData as _ResultData  # noqa: E402
+
+
+class FullModelClpLabels(_ResultData):
+    """Full (global x model) models: the clp reported under (global label g, label c) is the coefficient of the product
+    of global column g and model column c - the reported clp table, contracted with the labelled matrices, gives the
+    fitted data (index-dependent and index-independent model matrices, several global megacomplexes, shared labels).
+    Same harness and reference as C03 `ResultData`, restricted to the full-model configurations and to the
+    obligations about labels."""
+
+    prop = "C06"
+    name = "FullModelClpLabels"
+
+    KEEP = ("clp_dims_full_model", "fitted_data_is_matrix_clp_global_matrixT", "no_exception", "result_holds_every_dataset", "outside_precondition")
+
+    def cases(self, tier):
+        for case in super().cases(tier):
+            if any(ds.global_megacomplexes for ds in case["_cfg"].datasets):
+                yield case
+
+    def ensures(self, S, case, b, out):
+        for item in super().ensures(S, case, b, out):
+            if any(item[0].startswith(k) for k in self.KEEP):
+                yield item
+
+    def bounded_checks(self, tier, seed):
+        return []
